@@ -1643,6 +1643,13 @@ def build(template_text: str, repo: str, unit: str) -> Built:
             continue
         report.append(dict(item=meta["fn"], src=meta["srcspan"], sha256=meta["sha256"],
                            rewrites=[f"{r}: {d}" for r, d in rep]))
+    # std specs over `Vec<T, A>` name the allocator parameter: the (nightly) feature gate goes on the line of the first `use`
+    # (no line is added, so the line map stays valid)
+    if any("core::alloc::Allocator" in l for l in out_lines) and not any("feature(allocator_api)" in l for l in out_lines):
+        for k_, l_ in enumerate(out_lines):
+            if l_.startswith("use "):
+                out_lines[k_] = "#![feature(allocator_api)] " + l_
+                break
     text = "\n".join(out_lines) + "\n"
     # labels on template (preamble) lines
     for idx, ln in enumerate(out_lines, start=1):
